@@ -237,6 +237,10 @@ class Exec:
             return ('bytes', txt[1:])
         if txt.startswith("'"):
             return decode_rust_str('"' + txt[1:-1] + '"')
+        if txt.startswith('{alloc') or txt.startswith('&raw') or 'static' in txt.split(':')[0]:
+            # the address of a `static`: state that outlives one invocation
+            self.notes.setdefault('impure', []).append('reads/writes a static: ' + txt[:120])
+            return Obj('Static', None, [txt])
         if txt.startswith('ZeroSized: '):
             ty = txt[len('ZeroSized: '):].strip()
             if ty.startswith('{closure@'):
